@@ -135,33 +135,35 @@ theorem writerPackBools_is_spec (vals : List Nat) (hb : ∀ v ∈ vals, v < 2) :
     writerPackBools vals = packLE 1 (vals ++ List.replicate (8 - vals.length % 8) 0) :=
   writerPackBools_eq vals hb
 
-/-- **`delta_binary_unpack`, one miniblock (partial)**.  FULL statement wanted: on every well-formed
-    DELTA_BINARY_PACKED stream with miniblock widths ≤ 28 the kernel's output equals `Spec.decodeDelta`.
-    PROVED: the loop body for one miniblock of width 1..28 with at least two values still to come and
-    the output sized to the announced count — the `vpm` deltas are unpacked behind the values written
-    so far (those that do not fit are dropped), the j-loop replaces them in place by the running
-    values `chainOut` (each = previous + min_delta + delta, 64-bit wrap, stored at item width) and the
-    loop continues with `vpm` fewer values or stops after the last one; also the width-0 j-loop
-    (`deltaZero_run`).  MISSING: the induction over miniblocks / blocks, the header, and the
-    identification of `chainOut` with the specification's values modulo 2^bits; those parts are tied by
-    the exhaustive width × count lattice of the correspondence only. -/
-theorem deltaMiniblock_step_partial (buf : List Nat) (hbytes : ∀ b ∈ buf, b < 256) (ib vpm : Nat) (hib : 32 ≤ ib) (md : Int)
-    (bwLoc k i loc w : Nat) (o : DOut) (value : Int) (c : Nat)
-    (hw : buf[bwLoc + i]? = some w) (hw1 : 1 ≤ w) (hw28 : w ≤ 28)
-    (hbuf : loc + (vpm * w + 7) / 8 ≤ buf.length) (hc : 2 ≤ c) (hroom : o.pos + c = o.slots.size) :
-    ∃ o', o'.L = o.L.take o.pos
-              ++ chainOut ib md value (((List.range vpm).map (fun j => bitField w j (streamOf buf loc))).take (min vpm c))
-              ++ o.L.drop (o.pos + min vpm c) ∧
-      o'.pos = o.pos + min vpm c ∧ o'.slots.size = o.slots.size ∧
-      deltaBlockLoop buf ib vpm md bwLoc (k + 1) i loc o value (c : Int) =
-        (if c ≤ vpm then
-          .ok (loc + (vpm * w + 7) / 8, o',
-            chainVal md value (((List.range vpm).map (fun j => bitField w j (streamOf buf loc))).take (min vpm c)),
-            (c : Int) - (min vpm c : Nat), true)
-        else deltaBlockLoop buf ib vpm md bwLoc k (i + 1) (loc + (vpm * w + 7) / 8) o'
-            (chainVal md value (((List.range vpm).map (fun j => bitField w j (streamOf buf loc))).take (min vpm c)))
-            ((c : Int) - (min vpm c : Nat))) :=
-  deltaBlockLoop_step buf hbytes ib vpm hib md bwLoc k i loc w o value c hw hw1 hw28 hbuf hc hroom
+/-- **`delta_binary_unpack` (240-283) = `Spec.decodeDelta`** on every stream a conforming writer can
+    emit with miniblock bit widths ≤ 28: any block size and miniblock count (values per miniblock a
+    multiple of 8, as the format demands), any mixture of widths including 0, INT32 and INT64, any
+    count covered by the blocks, at any buffer position, whatever follows the stream.  The kernel
+    (header parse, block loop, in-place unpack-then-accumulate j-loops, 64-bit wrapping sums stored at
+    item width, early exit) does not fault and its output array holds exactly the specification's
+    values.  `encStreamP` is the byte form header ++ blocks, `BlockOk` says each block has `mpb`
+    miniblocks of `vpm` deltas below 2^width.  Widths ≥ 29 are the known finding; a count that is
+    ≡ 1 modulo the block size makes the kernel read a block header behind the stream (known finding
+    C12 delta over-read) and is excluded by `hroom` only when the stream ends there. -/
+theorem deltaBinaryUnpack_refines (pre post : List Nat) (longval : Bool) (blockSize mpb cnt : Nat) (first : Int) (blocks : List Block)
+    (hbs : blockSize < 2 ^ 64) (hmpb64 : mpb < 2 ^ 64) (hfirst : okI64 first)
+    (hmpb : 1 ≤ mpb) (hvpm : 1 ≤ blockSize / mpb) (h8 : blockSize / mpb % 8 = 0) (hcnt1 : 1 ≤ cnt) (hcnt : cnt < 2 ^ 63)
+    (hblocks : ∀ b ∈ blocks, BlockOk (blockSize / mpb) mpb b)
+    (hroom : cnt ≤ blockSize / mpb * mpb * blocks.length)
+    (hbytes : ∀ b ∈ pre ++ encStreamP blockSize mpb cnt first blocks ++ post, b < 256) :
+    ∃ vals rest slots loc',
+      decodeDelta (if longval then 64 else 32) (encStreamP blockSize mpb cnt first blocks ++ post) = some (vals, rest) ∧
+      deltaBinaryUnpack (pre ++ encStreamP blockSize mpb cnt first blocks ++ post) pre.length cnt longval = .ok (slots, loc') ∧
+      slots.toList = vals.map (ofSigned (if longval then 64 else 32)) :=
+  deltaKernel_eq_spec pre post longval blockSize mpb cnt first blocks hbs hmpb64 hfirst hmpb hvpm h8 hcnt1 hcnt hblocks hroom hbytes
+
+-- a stream meeting the hypotheses: block size 8, one miniblock per block, widths 3 and 0, five values
+example : BlockOk 8 1 ((-1 : Int), [((3 : Nat), [5, 0, 7, 1, 0, 0, 0, 0])]) :=
+  ⟨by unfold okI64; constructor <;> norm_num, rfl, by
+    intro m hm
+    simp only [List.mem_singleton] at hm
+    subst hm
+    exact ⟨by norm_num, rfl, (by intro h; cases h), (by decide)⟩⟩
 
 -- non-vacuity: concrete instances of the hypotheses
 example : unpackByteArray ([9] ++ packByteArray [[1, 2], [], [7]] ++ [0]) 1 3 = .ok [[1, 2], [], [7]] := by decide
